@@ -24,14 +24,19 @@ def sh(cmd, cwd=None, env=None, timeout=1800):
 
 
 def main():
-    for pid in sys.argv[1:]:
-        src = f"/tmp/seed-{pid}/_out"
+    args = sys.argv[1:]
+    prefix, offset = "/tmp/seed-", 0
+    if "--round2" in args:  # second round of sub-agents: /tmp/seed2-<ID>/_out, filed as <ID>-3, <ID>-4
+        args.remove("--round2")
+        prefix, offset = "/tmp/seed2-", 2
+    for pid in args:
+        src = f"{prefix}{pid}/_out"
         for n in (1, 2, 3):
             patch = os.path.join(src, f"patch{n}.diff")
             demo = os.path.join(src, f"demo{n}.py")
             if not (os.path.exists(patch) and os.path.exists(demo)):
                 continue
-            name = f"{pid}-{n}"
+            name = f"{pid}-{n + offset}"
             wt = f"/tmp/awingest-{os.getpid()}-{name}"
             rc, out = sh(f"git -C /repo worktree add -q --detach {wt} HEAD")
             if rc:
@@ -64,7 +69,7 @@ def main():
                 meta.update(
                     {
                         "property": pid,
-                        "origin": "written by an independent sub-agent that saw only the property text and a scratch worktree",
+                        "origin": "written by an independent sub-agent that saw only the property text and a scratch worktree" + (" (second round: it was also told the one-line summaries of the first-round changes for this property, to avoid repeating them)" if offset else ""),
                         "confirmed": {
                             "demo_on_clean_tree": f"exit {rc0}: {out0.strip()[-200:]}",
                             "test_suite_with_patch": outt.strip(),
